@@ -62,11 +62,43 @@ def prepare_matrix(work, tag, families=None, cfg=None, only=None):
     from concurrent.futures import ThreadPoolExecutor
     with ThreadPoolExecutor(max_workers=common.NPROC) as ex:
         res = list(ex.map(lambda j: common.dump(j[1], cfg, j[2]), jobs))
+    out_jobs = []
     for j, (ok, err) in zip(jobs, res):
-        if not ok:
-            sys.stderr.write(f"compilation of {j[1]} failed:\n{err[-3000:]}\n")
-            raise SystemExit(2)
-    return jobs
+        if ok:
+            out_jobs.append(j)
+            continue
+        if j[0] == "gen" and "panicked" in err:
+            # A generated program made the *compiler* panic (an internal compiler error on an
+            # error-free program - C08 territory, not a property claimed here). The file is split
+            # per generated program; programs that still panic are dropped and listed.
+            import matrix
+            from matrix_extra import EXTRA_HEADERS
+            fam, src, dump_path, part = j
+            progs = {}
+            for e in part:
+                progs.setdefault(e.name.rsplit("_", 1)[0], []).append(e)
+            for pk, (pname, es) in enumerate(progs.items()):
+                stem = os.path.basename(src)[:-6] + f"_p{pk}"
+                psrc = os.path.join(work, stem + ".cairo")
+                with open(psrc, "w") as f:
+                    f.write(matrix.HEADER + EXTRA_HEADERS.get(fam, ""))
+                    for e in es:
+                        f.write(e.source())
+                pdump = os.path.join(work, f"{stem}.{tag}.json")
+                ok2, err2 = common.dump(psrc, cfg, pdump)
+                if ok2:
+                    out_jobs.append((fam, psrc, pdump, es))
+                else:
+                    msg = [l for l in err2.split("\n") if "panicked" in l][:1]
+                    COMPILER_PANICS.append({"program": pname, "config": tag,
+                                            "message": (msg[0] if msg else err2[-200:])[:300]})
+            continue
+        sys.stderr.write(f"compilation of {j[1]} failed:\n{err[-3000:]}\n")
+        raise SystemExit(2)
+    return out_jobs
+
+
+COMPILER_PANICS = []
 
 
 def prepare_corpus(work, tag, cfg, only=None):
@@ -355,6 +387,7 @@ def generic(args, prop, worker, cfgs, confirm, level="model_checking", extra_tas
                          "inconclusive": sum(1 for x in cross for v in x["others"].values()
                                              if v not in ("sat", "unsat"))},
         "corpus_cases_skipped": corpus_skipped,
+        "generated_programs_dropped_compiler_panic": list(COMPILER_PANICS),
         "exhaustive": False,
         "bounds": f"see assumptions; per-query solver cap {tp['query_ms']} ms, per-function "
                   f"budget {tp['func_budget_s']} s",
@@ -600,11 +633,18 @@ def run_c05(args):
                 for tag, cfg in variants}
     cfg_of = dict(variants)
     tasks, meta, vsrc_of = [], {}, {}
-    for k, (fam, src, dump_path, entries) in enumerate(base_jobs):
-        vd = [(tag, var_jobs[tag][k][2]) for tag, _ in variants]
-        for tag, _ in variants:
-            vsrc_of[(dump_path, tag)] = var_jobs[tag][k][1]
+    # variant jobs are looked up per function name (a file may have been split, or a program
+    # dropped, under one configuration only)
+    by_name = {tag: {e.name: (vsrc, vdump) for _, vsrc, vdump, ves in var_jobs[tag] for e in ves}
+               for tag, _ in variants}
+    for fam, src, dump_path, entries in base_jobs:
         for e in entries:
+            vd = []
+            for tag, _ in variants:
+                hit = by_name[tag].get(e.name)
+                if hit is not None:
+                    vd.append((tag, hit[1]))
+                    vsrc_of[(dump_path, e.name, tag)] = hit[0]
             tasks.append((dump_path, e.name, tier, vd))
             meta[(dump_path, e.name)] = src
     results = run_pool(workers.c05_worker, tasks, os.path.join(work, "progress.log"))
@@ -623,7 +663,7 @@ def run_c05(args):
             if w["args"] is None:
                 continue
             cfg = dict(cfg_of[w["variant"]], allow_warnings=True)
-            vsrc = vsrc_of[(r["dump"], w["variant"])]
+            vsrc = vsrc_of[(r["dump"], r["name"], w["variant"])]
             w = dict(w, func="::" + r["name"])  # suffix match: crate names differ per variant
             ok, msg, resp = validate_witness(reps.get(vsrc, cfg), w, None)
             if ok:
@@ -636,7 +676,7 @@ def run_c05(args):
                 r["undecided"].append(f"{c.get('query')}:model-not-replayable(pointer argument)")
                 continue
             rb = reps.get(src, dict(base_cfg, allow_warnings=True))
-            vsrc = vsrc_of[(r["dump"], c["variant"])]
+            vsrc = vsrc_of[(r["dump"], r["name"], c["variant"])]
             rv = reps.get(vsrc, dict(cfg_of[c["variant"]], allow_warnings=True))
             fn = "::" + r["name"]
             runs = {"base_honest": rb.run(fn, c["args"]),
